@@ -43,11 +43,11 @@ impl View for References {
 }
 pub open spec fn touches(t: Triple, n: NodeId) -> bool { t.0 == n || t.2 == n }
 impl References {
-    // references.rs (C28, not under contract here): removes exactly the references from or to the node
+    // references.rs: the contract proved under C28 — removes exactly the references from or to the node, true when there was one
     #[verifier::external_body]
     pub fn delete_node_references(&mut self, source_node: &NodeId) -> (r: bool)
         ensures forall|t: Triple| #![trigger final(self)@.contains(t)] #![trigger old(self)@.contains(t)] final(self)@.contains(t) == (old(self)@.contains(t) && !touches(t, *source_node)),
-            r == (exists|t: Triple| #[trigger] old(self)@.contains(t) && touches(t, *source_node)),
+            (exists|t: Triple| #[trigger] old(self)@.contains(t) && touches(t, *source_node)) ==> r,      // as proved under C28
     { unimplemented!() }
 }
 // find_references(parent, Some((Aggregates, true))) mapped to the target nodes: a function of the references
@@ -145,8 +145,8 @@ def build(manifest):
                              '(BODY once per child, in order; BODY sees a reference to the element)',
                              'C29: std::collections::HashMap::{contains_key, remove} have map semantics and a HashMap holds finitely many keys '
                              '(environment type with a Map view)',
-                             'C29: References::delete_node_references removes exactly the references from or to the node (the property of C28; '
-                             'references.rs is HashMap/HashSet closures and iterator adapters, not under contract)',
+                             'C29: References::delete_node_references removes exactly the references from or to the node: the contract proved for the real '
+                             'function under C28 (unit c28_references), used here as an assumed contract of the environment type',
                              'C29: AddressSpace::find_aggregates_of is a function of the references (find_references + iterator adapters, not under '
                              'contract): "every node it aggregates" means every node that function reports on entry; the nodes aggregated by those '
                              'are covered by the same contract at the recursive call'])
